@@ -374,13 +374,16 @@ func TestVerif_C18(t *testing.T) {
 		r.Bound("configurations", len(cfgs))
 		// rollback to the initial state (id 0) followed by re-extension, the shortest history per configuration
 		// (these few cases also start the indexers through the genuine background initer)
+		// (run concurrently: a genuine initer that loses its start-up race needs 15 s)
+		var special []c18Case
 		for _, cfg := range cfgs {
 			cfg.RealIniter = true
-			c := c18Case{cfg, []string{"A+", c17Commit}, 0}
-			r.Case(c, func() error { return c18Check(r, c) })
-			c = c18Case{cfg, []string{"A.k0=1", "A.k0=2", "A!", c17Commit}, -1}
-			r.Case(c, func() error { return c18Check(r, c) })
+			special = append(special, c18Case{cfg, []string{"A+", c17Commit}, 0}, c18Case{cfg, []string{"A.k0=1", "A.k0=2", "A!", c17Commit}, -1})
 		}
+		r.Parallel(len(special), func(i int) {
+			c := special[i]
+			r.Case(c, func() error { return c18Check(r, c) })
+		})
 		r.Parallel(len(hists), func(i int) {
 			// number of transitions and position of the disk layer (maxDiffLayers=1)
 			n := 0
